@@ -99,6 +99,8 @@ class HistoryGen:
             f[5] = rng.choice(["0000\n0000\n0000\n0000", "0001\n0010\n,\n1000\n0000", "", "1"])
         if rng.random() < 0.5:
             f[0] = rng.choice(["dance-single", "dance-double", "pump-single"])
+        if rng.random() < 0.02:
+            f[5] = V.long_notes(rng)   # a marathon chart (beyond 65536 characters) with mixed line separators
         x = None
         if rng.random() < 0.3:
             x = [V.rvalue(rng, allow_cr=True, long_ok=rng.random() < 0.3) for _ in range(rng.randint(0, 3))]
@@ -131,6 +133,8 @@ class HistoryGen:
             nv = rng.choice(["", "0", "1", "0000\n0000\n0000\n0000\n", "\n0000\n0001\n"])
             if self.identity and self.pool and rng.random() < 0.5:
                 nv = ["p", rng.randrange(len(self.pool))]
+        elif rng.random() < 0.04:
+            nv = V.long_notes(rng)
         items.insert(rng.randint(0, len(items)), [nk, nv])
         return {"items": items}
 
@@ -145,6 +149,16 @@ class HistoryGen:
         r = rng.random()
         keys = list(m.d.keys())
         op = None
+        if rng.random() < 0.006:
+            # a simfile with dozens of charts (32-70 more, small ones)
+            for j in range(rng.choice([32, 33, 40, 64, 70])):
+                if self.kind == "sm":
+                    spec = {"f": ["dance-single", f"c{j}", "Hard", str(j), "0,0", "0000\n0000\n0000\n0000"], "x": None, "via": "from_msd"}
+                else:
+                    spec = {"items": [["STEPSTYPE", "dance-single"], ["METER", str(j)], ["NOTES", "0000\n0000\n0000\n0000\n"]]}
+                many = ["c_append", spec]
+                apply_model(self.m, many, self.pool, self.kind)
+                self.ops.append(many)
         if rng.random() < 0.04:
             # a key that is almost, but not, one of the keywords the loaders look for -- set, then moved to the front
             k = rng.choice(V.NEAR_MISS_KEYS)
